@@ -11,7 +11,7 @@ from __future__ import annotations
 import re
 from . import simlib
 
-ATTR = {'i': 0, 'ti': 1, 'po': 2, 'eo': 3}
+ATTR = {'i': 0, 'ti': 1, 'po': 2, 'eo': 3, 'e2': 4, 't2': 5}
 RATTR = {v: k for k, v in ATTR.items()}
 
 
@@ -57,12 +57,19 @@ def classify_outcome(run):
     return 'other:' + oc.split(':')[0], None
 
 
+def src_key(srcfull, idx):
+    """source entity -> the model's key: entity 'e' of simulator i is i, agent entity 'a<w>' (set_data only) is w * nsims + i"""
+    sid, eid = srcfull.split('.', 1)
+    w = int(eid[1:]) if eid != 'e' else 0
+    return w * len(idx) + idx[sid]
+
+
 def canon_inputs(inputs, idx, tok):
     trip = []
     for eid, attrs in inputs.items():
         for a, m in attrs.items():
             for srcfull, v in m.items():
-                trip.append((ATTR[a], idx[srcfull.split('.')[0]], None if v is None else tok(v)))
+                trip.append((ATTR[a], src_key(srcfull, idx), None if v is None else tok(v)))
     return sorted(trip, key=lambda x: (x[0], x[1], -1 if x[2] is None else x[2]))
 
 
@@ -70,7 +77,7 @@ def show_inp(trip):
     return ';'.join(f"{a}<-{s}={'N' if v is None else v}" for a, s, v in trip)
 
 
-ATTRS = {'time-based': ['i', 'po'], 'event-based': ['ti', 'eo'], 'hybrid': ['i', 'ti', 'po', 'eo']}
+ATTRS = {'time-based': ['i', 'po'], 'event-based': ['ti', 't2', 'eo', 'e2'], 'hybrid': ['i', 'ti', 't2', 'po', 'eo', 'e2']}
 TYPE_ID = {'time-based': 0, 'event-based': 1, 'hybrid': 2}
 
 
@@ -80,8 +87,8 @@ def attr_facts(types, e):
     sa, da = e['sa'], e['da']
     src_is_out = sa in ATTRS[ta]
     dst_is_in = da in ATTRS[tb]
-    persistent = src_is_out and (ta == 'time-based' or (ta == 'hybrid' and sa != 'eo'))
-    trigger = dst_is_in and (tb == 'event-based' or (tb == 'hybrid' and da == 'ti'))
+    persistent = src_is_out and (ta == 'time-based' or (ta == 'hybrid' and sa not in ('eo', 'e2')))
+    trigger = dst_is_in and (tb == 'event-based' or (tb == 'hybrid' and da in ('ti', 't2')))
     nontrigger = dst_is_in and not trigger
     return src_is_out, dst_is_in, nontrigger, trigger, persistent
 
@@ -237,6 +244,8 @@ def validate(run, case, model, lazy=True, cache=True, tables_from='model') -> Va
     else:
         if run.build_error is not None or run.world is None:
             return v
+        if v.impl_kind == 'scenario':
+            return v        # rejected by the cycle check at the start of run() (C06 covers this)
         L, idx, ports = static_lines(run, case, lazy, cache, tok)
         v.static_lines = L
         for l in L:
@@ -281,8 +290,9 @@ def validate(run, case, model, lazy=True, cache=True, tables_from='model') -> Va
             else:
                 v.disc.append(dict(kind='model_err:' + r.split()[1], at=at, detail=f'{sid} began {tiers}; model: {r}')); break
         elif k == 'SETDATA':
-            _, sid, dest, attr, tk_ = l
-            r = send(f"SETDATA {idx[sid]} {idx[dest] if dest in idx else 999} {ATTR[attr]} {tok(tk_)}", at)
+            _, sid, dest, attr, tk_ = l[:5]
+            w = l[5] if len(l) > 5 else 0
+            r = send(f"SETDATA {idx[sid]} {w} {idx[dest] if dest in idx else 999} {ATTR[attr]} {tok(tk_)}", at)
             if r.startswith('asyncrefused'):
                 if v.impl_kind != 'async':
                     v.disc.append(dict(kind='model_err:asyncrefused', at=at, detail=r))
